@@ -93,6 +93,11 @@ func (p *networkSimplexProcessor) minSlackNonTreeEdge(edges []*graph.Edge, e *gr
 func (p *networkSimplexProcessor) feasibleTree(g *graph.DGraph) {
 	p.initLayers(g)
 	for {
+		// rebuild the tree from scratch: following the edges marked in a previous round could close a cycle,
+		// when a tight non-tree edge reaches a node of the old tree before the tree edges do
+		for _, e := range g.Edges {
+			e.IsInSpanningTree = false
+		}
 		treeNodes := tightTree(g.Nodes[0], graph.EdgeSet{}, graph.NodeSet{})
 		if len(treeNodes) == len(g.Nodes) {
 			break
